@@ -4,8 +4,19 @@
 not_applicable with the reason given in manifest_meta.json["not_claimed"]."""
 import json, os, subprocess
 V = os.path.dirname(os.path.dirname(os.path.abspath(__file__)))
-checks = json.load(open(os.path.join(V, "checks.json")))
+import importlib.machinery, importlib.util
+_l = importlib.machinery.SourceFileLoader("checkdrv", os.path.join(V, "check"))
+_s = importlib.util.spec_from_loader("checkdrv", _l)
+_m = importlib.util.module_from_spec(_s); _l.exec_module(_m)
+checks = _m.load_cfg()
 meta = json.load(open(os.path.join(V, "manifest_meta.json")))
+H = os.path.join(V, "harness")
+for pkg in sorted(os.listdir(H)):
+    fp = os.path.join(H, pkg, "manifest_meta.json")
+    if os.path.isfile(fp):
+        fr = json.load(open(fp))
+        for k, v in fr.get("claimed", {}).items():
+            meta["claimed"].setdefault(k, v)
 props = [json.loads(l) for l in open(os.path.join(V, "properties.jsonl"))]
 hooks = subprocess.run(["git", "-C", "/repo", "log", "--format=%H %s", "--grep=^verif hook"],
                        capture_output=True, text=True).stdout.strip().splitlines()
